@@ -1177,6 +1177,14 @@ pub fn worker(args: &[String]) -> i32 {
     std::fs::create_dir_all(&scratch).unwrap_or_else(|e| harness_fail(&format!("scratch: {e}")));
     if let Some(file) = arg_after(args, "--minimise").or_else(|| arg_after(args, "--replay")) {
         let text = std::fs::read_to_string(&file).unwrap_or_else(|e| harness_fail(&e.to_string()));
+        if let Ok(d) = serde_json::from_str::<direct::DirectReplay>(&text) {
+            // process-free class: re-drive the writer with the recorded input, chunking and sink
+            let stats = Arc::new(Mutex::new((0u64, 0u64)));
+            let detail = direct::run_one(&d.input, &d.chunks, &d.sink, &d.kind, d.finish_by_unwrap, &stats);
+            println!("RESULT {}", json!({"reproduced": !detail.is_empty(), "detail": detail}));
+            let _ = std::fs::remove_dir_all(&scratch);
+            return 0;
+        }
         let rep: E5Replay = serde_json::from_str(&text).unwrap_or_else(|e| harness_fail(&e.to_string()));
         if args.iter().any(|a| a == "--replay") {
             let o = run_scenario(&rep.scenario, &scratch, 1_000, 10_000);
